@@ -63,7 +63,8 @@ type Req struct {
 	ACRH   []string `json:"acrh,omitempty"`
 }
 
-// Step: "put" installs Rules on Bucket, "del" deletes the configuration, "req" sends Req.
+// Step: "put" installs Rules on Bucket, "del" deletes the configuration, "req" sends Req,
+// "recreate" (server mode) deletes bucket 1 and creates it again.
 type Step struct {
 	Kind   string `json:"kind"`
 	Bucket int    `json:"bucket,omitempty"`
@@ -258,6 +259,9 @@ type world struct {
 	mwRules []httpmiddleware.CORSRule
 	nextLog *nextRecord
 	base    map[string]string // baseline fingerprints of read-only non-CORS requests (server mode)
+	// stale[b]: the configuration bucket b had when the bucket itself was deleted,
+	// until the next PUT/DELETE ?cors on it (mechanism of KF-C34-2).
+	stale [3][]Rule
 }
 
 type nextRecord struct {
@@ -307,6 +311,9 @@ func openWorld(env *ev.Env, mode string) (*world, error) {
 		if err := inst.Storage.CreateBucket(ctx, bn); err != nil {
 			w.close()
 			return nil, err
+		}
+		if b != bucketNames[0] {
+			continue // bkt1 stays empty so that it can be deleted and re-created
 		}
 		k, _ := storage.NewObjectKey("key")
 		if _, err := inst.Storage.PutObject(ctx, bn, k, nil, strings.NewReader(objBody), nil, nil); err != nil {
@@ -447,6 +454,7 @@ func run(env *ev.Env, c Case) (o ev.Outcome) {
 			switch {
 			case rec.Code == 200:
 				w.cfg[b] = st.Rules
+				w.stale[b] = nil
 				o.Class("put:accepted")
 			case rec.Code == 400:
 				o.Class("put:rejected")
@@ -466,7 +474,32 @@ func run(env *ev.Env, c Case) (o ev.Outcome) {
 				return
 			}
 			w.cfg[b] = nil
+			w.stale[b] = nil
 			o.Class("del")
+		case "recreate":
+			// delete the (empty) bucket and create it again: its CORS configuration is gone
+			if c.Mode == "mw" {
+				continue
+			}
+			b := st.Bucket
+			rec := w.do("DELETE", "localhost", "/"+bucketNames[b], nil, nil)
+			if rec.Code != 204 {
+				o.Class("recreate:delete-refused") // not empty
+				continue
+			}
+			if w.cfg[b] != nil {
+				w.stale[b] = w.cfg[b]
+			}
+			w.cfg[b] = nil
+			if st.Rules == nil { // Rules==nil: re-create; otherwise leave the bucket deleted
+				if rec := w.do("PUT", "localhost", "/"+bucketNames[b], nil, nil); rec.Code != 200 {
+					o.Failf("step %d: harness: re-creating %s answered %d", si, bucketNames[b], rec.Code)
+					return
+				}
+				o.Class("recreate:done")
+			} else {
+				o.Class("recreate:deleted-only")
+			}
 		case "req":
 			rr := *st.Req // never mutate the case
 			r := &rr
@@ -564,6 +597,14 @@ func run(env *ev.Env, c Case) (o ev.Outcome) {
 				if preflight && len(r.ACRH) >= 2 && env.Known("c34.onlyFirstRequestHeadersLine") {
 					if m1, _ := anyRule(rules, origins, methods, preflight, splitList(r.ACRH[:1])); m1 {
 						o.KnownHits = append(o.KnownHits, "KF-C34-1")
+						continue
+					}
+				}
+				// KF-C34-2: the CORS cache is not invalidated when the bucket is deleted; the
+				// configuration of the deleted bucket keeps granting (up to the 60 s TTL).
+				if c.Mode == "server" && r.Bucket >= 0 && r.Bucket < 3 && w.stale[r.Bucket] != nil && env.Known("c34.staleCacheAfterBucketDelete") {
+					if ms, _ := anyRule(w.stale[r.Bucket], origins, methods, preflight, reqHeaders); ms {
+						o.KnownHits = append(o.KnownHits, "KF-C34-2")
 						continue
 					}
 				}
@@ -831,11 +872,14 @@ func genCase(t *rapid.T, env *ev.Env) Case {
 		case i == 0 || k == 7 || k == 13:
 			b := 0
 			if c.Mode == "server" {
-				b = rapid.SampledFrom([]int{0, 0, 1}).Draw(t, "pb")
+				b = rapid.SampledFrom([]int{0, 1}).Draw(t, "pb")
 			}
 			rules := rapid.SliceOfN(rapid.Custom(genRule), 1, 3).Draw(t, "rules")
 			cur[b] = rules
 			c.Steps = append(c.Steps, Step{Kind: "put", Bucket: b, Rules: rules})
+		case k == 17 && i > 1 && c.Mode == "server":
+			cur[1] = nil
+			c.Steps = append(c.Steps, Step{Kind: "recreate", Bucket: 1})
 		case k == 11 && i > 1:
 			b := 0
 			if c.Mode == "server" {
@@ -893,6 +937,14 @@ func directed(env *ev.Env) []Case {
 			non(0, "GET"),
 		}})
 	}
+	// bucket deleted and re-created: its configuration is gone
+	cs = append(cs, Case{Mode: "server", Steps: []Step{
+		{Kind: "put", Bucket: 1, Rules: []Rule{star}},
+		act(1, "https://app.example.com", "GET", false),
+		{Kind: "recreate", Bucket: 1},
+		act(1, "https://app.example.com", "GET", false),
+		{Kind: "req", Req: &Req{Method: "OPTIONS", Bucket: 1, Key: "key", Origin: []string{"https://app.example.com"}, ACRM: []string{"GET"}}},
+	}})
 	return cs
 }
 
